@@ -558,7 +558,91 @@ def _rederived(i, r):
     return And(fr[first] == i.f5, fr[second] == Mod((bl[first][1] - bl[first][0]) - i.f5, 3))
 
 
-CASES = [CdsOptimize("optimize_and_combine_blocks"), CdsOptimize("optimize_blocks"), ScanWindowsSingle(3), ScanWindowsSingle(1), PrepSingleExon(False), PrepSingleExon(True), PrepTwoExons(),
+class CdsSequenceText(Case):
+    """CDSInterval.extract_sequence on symbolic text (CDS built on a sequence chunk of either strand that contains
+    it, frames forming one reading frame from the start frame f): the coding sequence is the reading-frame model
+    read off the chromosome - its length is 3 * floor((L - f) / 3), a multiple of three, and its k-th base is the
+    chromosome base (of the CDS strand) at CDS position f + k: exactly the concatenation of the complete codons."""
+    props = ("C05", "C03", "C07")
+    func = CDS + ".extract_sequence"
+    shard_depth = 6
+
+    def __init__(self, n):
+        self.n = n
+        self.name = f"CDSInterval.extract_sequence[{n} exons, one reading frame, symbolic text, chunk of either strand]"
+        self.call = "(lambda s: (len(s), s, cds.num_codons))(cds.extract_sequence())"
+        # known finding F-C05-2: a 5'-most exon SHORTER than the start offset (the skipped bases run into the second
+        # exon) - the frame cleaning then drops a whole extra codon
+        kf = dict(id="F-C05-2", carve=lambda i: i.first5 < i.f)
+        self.known = {"length-is-the-number-of-complete-codons-times-three": kf,
+                      "k-th-base-is-the-chromosome-base-at-cds-position-f-plus-k": kf} if n > 1 else {}
+        self.ensures = {
+            "length-is-the-number-of-complete-codons-times-three": lambda i, r: And(
+                r[0] == 3 * Div(i.L - i.f, 3), Mod(r[0], 3) == 0, r[2] == Div(i.L - i.f, 3)),
+            "k-th-base-is-the-chromosome-base-at-cds-position-f-plus-k": lambda i, r: Implies(
+                And(0 <= i.k, i.k < r[0]),
+                _tchar(r[1], i.k) == _chrom_base(i, _cds_pos(i, i.f + i.k))),
+        }
+
+    def inputs(self, S):
+        from .c04_liftover import chunk_parent_stranded
+        n = self.n
+        starts, ends = block_lists(S, "cds", n)
+        strand = strand_of(S, "strand")
+        f = S.enum(FRAME, "frame")
+        S.assume(Not(enum_name_is(f, "NONE")))
+        if S.mode == "sym":
+            f = S.e.enum_concretize(f)
+        fv = f.value if not hasattr(f, "members") else f.members[f.idx][1]
+        cp, cs, ce, minus = chunk_parent_stranded(S)
+        S.assume(And(cs <= starts[0], ends[-1] <= ce))
+        L = sum((e - s for s, e in zip(starts, ends)), 0)
+        S.assume(L - fv >= 3)  # at least one complete codon
+        # the start offset lies inside the 5'-most exon (an exon shorter than the offset is the corner of the known
+        # findings on frame cleaning, F-C05-1 / 'tiny first exon' of the bounded twin case)
+        first5 = (ends[0] - starts[0]) if _is_plus(strand) else (ends[-1] - starts[-1])
+        self._first5 = first5
+        frames = S.fn(CDS + ".construct_frames_from_location")
+        loc = S.new(COMPOUND, starts, ends, strand) if n > 1 else S.new(SINGLE, starts[0], ends[0], strand)
+        fl = frames(loc, f) if S.mode == "native" else S.e.call(frames, [loc, f], {})
+        cds = S.new(CDS, starts, ends, strand, fl, parent_or_seq_chunk_parent=cp)
+        return NS(cds=cds, f=fv, L=L, k=S.int("k"), starts=starts, ends=ends, plus=_is_plus(strand), cs=cs, ce=ce,
+                  minus=minus, text=S.symstr("chunk_seq"), first5=first5)
+
+    def samples(self, rng):
+        d = sample_blocks(rng, "cds", self.n, lo=2, length=(3, 4, 5, 7))
+        cs = rng.randint(0, d["cds_starts"][0])
+        ce = d["cds_ends"][-1] + rng.randint(0, 3)
+        d.update(strand=rng.choice(["PLUS", "MINUS"]), frame=rng.choice(["ZERO", "ONE", "TWO"]), k=rng.randint(0, 9),
+                 chunk_start=cs, chunk_end=ce, chunk_strand=rng.choice(["PLUS", "MINUS"]),
+                 chunk_seq="".join(rng.choice("ACGT") for _ in range(ce - cs)))
+        return d
+
+    def observe(self, r):
+        from pyvc.check import default_observe as o
+        text = r[1].sequence if hasattr(r[1], "attrs") else str(r[1])
+        return [o(r[0]), text if isinstance(text, str) else None, o(r[2])]
+
+
+def _tchar(seq, k):
+    t = seq.sequence if hasattr(seq, "attrs") else str(seq)
+    if hasattr(t, "arr"):
+        import z3
+        return z3.Select(t.arr, k)
+    return ord(t[k]) if 0 <= k < len(t) else -1
+
+
+def _cds_pos(i, t):
+    from .c03_sequence import _pos
+    return _pos(i, t)
+
+
+def _chrom_base(i, p):
+    from .c03_sequence import _chrom_base as cb
+    return cb(i, p)
+
+
+CASES = [CdsSequenceText(1), CdsSequenceText(2), CdsOptimize("optimize_and_combine_blocks"), CdsOptimize("optimize_blocks"), ScanWindowsSingle(3), ScanWindowsSingle(1), PrepSingleExon(False), PrepSingleExon(True), PrepTwoExons(),
          PrepExons(3), ChunkRelativeFrames(1, True), ChunkRelativeFrames(2, True), ChunkRelativeFrames(3, True),
          ConstructFrames(1), ConstructFrames(2), ConstructFrames(3), CodonsSingleExonChunk()]
 
